@@ -8,6 +8,7 @@ import Driver.Front
 import Driver.Meta
 import Driver.Cli
 import Driver.Io
+import Driver.Sched
 /-
   oxidriver: line protocol over the executable model.
   One request per line: `<op> <arg> ...`; one answer line per request.
@@ -15,7 +16,7 @@ import Driver.Io
 -/
 namespace Driver
 
-def handlers : List (List String → Option String) := [handleFilters, handleGeom, handleEval, handleDecision, handleReduce, handleLineage, handleFront, handleMeta, handleCli, handleIo]
+def handlers : List (List String → Option String) := [handleFilters, handleGeom, handleEval, handleDecision, handleReduce, handleLineage, handleFront, handleMeta, handleCli, handleIo, handleSched]
 
 def handle (args : List String) : String :=
   match handlers.findSome? (fun h => h args) with
